@@ -203,19 +203,14 @@ func zzFullSession() (bus.Server, *Session, *int32) {
 	l := newZZListener()
 	dials := new(int32)
 	sym.Replace("github.com/lugu/qiloop/bus/net.Listen", func(addr string) (net.Listener, error) { return l, nil })
-	sym.Replace("github.com/lugu/qiloop/bus.SelectEndPoint", func(addrs []string, user, token string) (string, bus.Channel, error) {
-		if len(addrs) == 0 {
-			return "", nil, errors.New("empty address list")
-		}
+	// the REAL bus.SelectEndPoint runs (address selection, authentication handshake); only the dial
+	// itself is in-memory under the engine
+	sym.Replace("github.com/lugu/qiloop/bus/net.DialEndPoint", func(addr string) (net.EndPoint, error) {
 		atomic.AddInt32(dials, 1)
 		cs, ss := zzPipe()
 		l.conns <- ss
 		sym.Yield() // connecting takes time: other requests run meanwhile
-		ch := bus.NewChannel(net.NewEndPoint(cs), bus.ClientCap(user, token))
-		if err := ch.Authenticate(); err != nil {
-			return "", nil, err
-		}
-		return addrs[0], ch, nil
+		return net.NewEndPoint(cs), nil
 	})
 	addr := util.NewUnixAddr()
 	srv, err := directory.NewServer(addr, nil)
@@ -223,7 +218,7 @@ func zzFullSession() (bus.Server, *Session, *int32) {
 	if err != nil {
 		return nil, nil, dials
 	}
-	sess, err := NewAuthSession(addr, "", "")
+	sess, err := NewAuthSession(addr, "user", "token")
 	sym.Assert(err == nil, "session-established")
 	if err != nil {
 		return srv, nil, dials
